@@ -24,6 +24,11 @@ def run(chk):
         if not t.endswith(b"\n"):
             t += b"\n"
         docs.append((rng.randrange(3), t))
+    # signed texts whose LAST line is exactly as long as a read buffer (the signed text runs straight into the signature armor:
+    # its last line has no line ending of its own when it reaches the paragraph reader)
+    for n_, leads in ((4095, (0,)), (4096, (0, 1)), (4097, (1,)), (8192, (0,))):
+        for lead in [(b"Source: s\nBinary: a, b\nDescription: ", b"Source: s\nDescription: short\n ")[k] for k in leads]:
+            docs.append((rng.randrange(3), lead + b"x" * (n_ - len(lead.split(b"\n")[-1])) + b"\n"))
     docs.append((0, b"Source: hello\nVersion: 1.0-1\nFiles:\n d41d8cd98f00b204e9800998ecf8427e 0 hello_1.0.orig.tar.gz\n\n- dash: line\n"))
     signed = sign(chk, docs)
     cases, tags = [], []
